@@ -26,7 +26,7 @@ func init() {
 			"outputs are zero-initialised by the caller (InitialiseOutputs), as everywhere in the library",
 		},
 		Workloads: []core.Workload{
-			{Name: "identities", Variant: "plain", N: func(t string) int { return len(c16Models) * map[string]int{"quick": 50, "thorough": 10000}[t] }, Run: c16Case},
+			{Name: "identities", Variant: "plain", N: func(t string) int { return len(c16Models) * map[string]int{"quick": 600, "thorough": 10000}[t] }, Run: c16Case},
 		},
 	})
 }
